@@ -20,6 +20,7 @@ import (
 	"github.com/yuin/goldmark/parser"
 	ghtml "github.com/yuin/goldmark/renderer/html"
 	"github.com/yuin/goldmark/text"
+	"github.com/yuin/goldmark/util"
 
 	yaml "gopkg.in/yaml.v3"
 )
@@ -338,16 +339,16 @@ func (m *Markdown) renderInlineNode(w io.Writer, node ast.Node, src []byte) erro
 	case *ast.Link:
 		content := m.inlineContent(n, src)
 		return m.renderTemplate(w, "link", map[string]any{
-			"href":    string(n.Destination),
-			"title":   string(n.Title),
+			"href":    linkDestination(n.Destination),
+			"title":   plainText(n.Title),
 			"content": content,
 		})
 	case *ast.Image:
 		alt := inlineText(n, src)
 		return m.renderTemplate(w, "image", map[string]any{
-			"src":   string(n.Destination),
+			"src":   linkDestination(n.Destination),
 			"alt":   alt,
-			"title": string(n.Title),
+			"title": plainText(n.Title),
 		})
 	case *ast.AutoLink:
 		url := string(n.URL(src))
@@ -426,12 +427,32 @@ func inlineText(node ast.Node, src []byte) string {
 	var buf strings.Builder
 	for c := node.FirstChild(); c != nil; c = c.NextSibling() {
 		if t, ok := c.(*ast.Text); ok {
-			buf.Write(t.Segment.Value(src))
+			if t.IsRaw() {
+				buf.Write(t.Segment.Value(src))
+			} else {
+				buf.WriteString(plainText(t.Segment.Value(src)))
+			}
 		} else if c.HasChildren() {
 			buf.WriteString(inlineText(c, src))
 		}
 	}
 	return buf.String()
+}
+
+// plainText returns Markdown source text as the plain text it stands for: backslash
+// escapes and character references are resolved, like the reference renderer does.
+// The result is handed to templates as a value, so the engine escapes it.
+func plainText(value []byte) string {
+	value = util.UnescapePunctuations(value)
+	value = util.ResolveNumericReferences(value)
+	value = util.ResolveEntityNames(value)
+	return string(value)
+}
+
+// linkDestination returns a link or image destination the way the reference renderer
+// writes it: escapes and references resolved, then percent-encoded where needed.
+func linkDestination(dest []byte) string {
+	return string(util.URLEscape(dest, true))
 }
 
 // codeBlockContent extracts the raw text lines from a code block node.
